@@ -37,6 +37,8 @@ type c20Rule struct {
 
 type c20Case struct {
 	Files map[string][]c20Rule `json:"files"`
+	// files that, at HEAD only, start with a malformed control comment: reported on its own, the rules still parse
+	BadComment map[string]bool `json:"head_has_malformed_comment,omitempty"`
 }
 
 var c20Metrics = []string{"job:up:sum", "job:foo:rate5m", "instance:bar:avg", "foo:sum", "up", "foo"}
@@ -66,6 +68,10 @@ func c20RandRule(r *hx.Run) c20Rule {
 	aref := func() string {
 		a := hx.Pick(rr, c20Alerts)
 		ru.Alerts = append(ru.Alerts, a)
+		if rr.Intn(4) == 0 {
+			// the same selection through the name matcher
+			return fmt.Sprintf(`{__name__=%q, alertname=%q}`, hx.Pick(rr, []string{"ALERTS", "ALERTS_FOR_STATE"}), a)
+		}
 		return fmt.Sprintf(`%s{alertname=%q%s}`, hx.Pick(rr, []string{"ALERTS", "ALERTS_FOR_STATE"}), a, hx.Pick(rr, []string{"", `, alertstate="firing"`}))
 	}
 	switch rr.Intn(10) {
@@ -98,6 +104,9 @@ func (c c20Case) render(withRemoved bool) map[string]string {
 	out := map[string]string{}
 	for _, p := range hx.SortedKeys(c.Files) {
 		var sb strings.Builder
+		if c.BadComment[p] && !withRemoved {
+			sb.WriteString("# pint file/owner\n")
+		}
 		sb.WriteString("groups:\n- name: g\n  rules:\n")
 		n := 0
 		for _, ru := range c.Files[p] {
@@ -414,8 +423,11 @@ func runC20(r *hx.Run, replay string) {
 				}
 			}
 		}
+		if i%8 == 3 {
+			cs.BadComment = map[string]bool{fmt.Sprintf("rules/f%d.yml", rr.Intn(nf)): true}
+		}
 		c20Eval(r, cs)
-		if i%12 == 0 {
+		if i%12 == 0 || cs.BadComment != nil {
 			c20EndToEnd(r, cs)
 		}
 	}
